@@ -424,9 +424,6 @@ func (l *IPFSLog) Iterator(options *IteratorOptions, output chan<- iface.IPFSLog
 	}
 
 	if options.Amount != nil {
-		if *options.Amount == 0 {
-			return nil
-		}
 		amount = *options.Amount
 	}
 
